@@ -92,7 +92,7 @@ pub fn scenario(r: &mut Report, p: &Params) {
     let mut last_answer: HashMap<(SocketAddrV4, SocketAddrV4), u64> = HashMap::new();
     let mut outstanding: HashMap<(SocketAddrV4, SocketAddrV4, Vec<u8>), u64> = HashMap::new();
     let mut trace_pos = 0usize;
-    let mut counters = (0u64, 0u64, 0u64, 0u64, 0u64); // ping requests, refresh find_nodes, evictions seen, relearned, samples
+    let mut counters = (0u64, 0u64, 0u64, 0u64, 0u64, 0u64); // ping requests, refresh find_nodes, evictions seen, relearned, samples
     let mut restart_pending: Vec<(u64, usize)> = vec![];
     let mut last_refresh: HashMap<SocketAddrV4, u64> = HashMap::new();
     let mut recent_checks = (0u64, 0u64); // (x, peer) pairs demanded present: small networks, big networks
@@ -256,6 +256,17 @@ pub fn scenario(r: &mut Report, p: &Params) {
                     }
                 }
             }
+            // (b') the same for the node's second routing table (nodes that support signed peers), read through the snapshot hook
+            let overdue: Vec<SocketAddrV4> = slots.iter().filter(|s| s.node.is_none() && s.crashed_at.map(|tc| s_now >= tc + 21 * MIN).unwrap_or(false)).map(|s| s.addr).collect();
+            if !overdue.is_empty() {
+                if let Some(snap) = snapshot(&w, slots[*i].node.as_ref().expect("live")) {
+                    counters.5 += 1;
+                    if let Some(dead) = snap.signed_table.nodes.iter().find(|n| overdue.contains(&n.1)) {
+                        r.violation("health/dead-peer-still-listed/signed-peers-table", "a peer that stopped answering more than 21 minutes ago is still in the signed-peers routing table", case.clone(), json!({"node": x.to_string(), "peer": dead.1.to_string(), "entry_age_s": dead.2.as_secs()}));
+                        violations_here += 1;
+                    }
+                }
+            }
             if big {
                 prev_tables.insert(x, (s_now, tb.clone()));
             }
@@ -338,6 +349,7 @@ pub fn scenario(r: &mut Report, p: &Params) {
     r.add("dead_peer_checks_passed", counters.2);
     r.add("relearned_after_restart", counters.3);
     r.add("samples", counters.4);
+    r.add("signed_table_dead_peer_checks", counters.5);
     r.add("recent_answerer_present_checks", recent_checks.0);
     r.add("recent_answerer_present_checks_full_buckets", recent_checks.1);
     if big {
@@ -375,8 +387,18 @@ pub fn blackout_scenario(r: &mut Report, seed: u64) {
     let mut net = build_net(&w, n, 0, plan, false, &mut rng);
     let boot_ip = *net.boot.ip();
     let x = w.spawn(if rng.bool() { NodeSpec::server(Ipv4Addr::new(10, 77, 0, 1), &[net.boot]) } else { NodeSpec::client(Ipv4Addr::new(10, 77, 0, 1), &[net.boot]) }).expect("x");
+    let t_x = w.now();
     w.block_on(x.adht.bootstrapped(), 60 * SEC);
     w.run_for(rng.range(30, 200) * SEC);
+    // staggered variant: the bootstrap node goes first, the node refreshes its table once more among the
+    // others (so the lookup it remembers for its own id does not contain the bootstrap address), then they go
+    let staggered = rng.bool() && net.nodes.len() >= 2;
+    if staggered {
+        let boot_node = net.nodes.remove(0);
+        w.crash(boot_node);
+        w.run_to(t_x + 16 * MIN + rng.below(3 * MIN));
+        r.count("blackouts_staggered");
+    }
     // everybody else disappears
     for node in net.nodes.drain(..) {
         w.crash(node);
@@ -407,10 +429,67 @@ pub fn blackout_scenario(r: &mut Report, seed: u64) {
         r.nontrivial(mix(seed, outage));
         // two consecutive samples (> 30 s) with an empty table while the bootstrap node is reachable
         if recovered_after.map(|s| s > 90).unwrap_or(true) {
-            r.violation("health/table-stays-empty/after-blackout", "the table stayed empty for more than 90 s although the bootstrap node is reachable again", case.clone(), json!({"outage_min": outage / MIN, "empty_samples": empty_samples, "recovered_after_s": recovered_after}));
+            r.violation("health/table-stays-empty/after-blackout", "the table stayed empty for more than 90 s although the bootstrap node is reachable again", case.clone(), json!({"staggered": staggered, "outage_min": outage / MIN, "empty_samples": empty_samples, "recovered_after_s": recovered_after}));
         }
     } else {
         r.count("blackouts_table_not_drained");
+    }
+    drop(back);
+    drop(x);
+    for (thread, loc, msg) in crate::take_panics() {
+        r.violation(&format!("panic/{loc}"), &format!("thread {thread} panicked: {msg}"), case.clone(), json!({}));
+    }
+}
+
+/// The bootstrap node comes up late: the node starts with a bootstrap address where nothing listens yet; a
+/// peer joins through it and alone answers its pings and its 15-minute refresh; then that peer goes away
+/// for good, the table drains, and the bootstrap node finally comes up (a passive first node). The node has
+/// to go back to its bootstrap list.
+pub fn late_bootstrap_scenario(r: &mut Report, seed: u64) {
+    r.eval();
+    let mut rng = Rng::new(seed);
+    let w = World::with_cfg(seed, NetCfg::default(), TraceLevel::Off);
+    let case = json!({"class":"late-bootstrap","seed":seed.to_string()});
+    let boot_addr = SocketAddrV4::new(Ipv4Addr::new(10, 78, 0, 1), 6881);
+    let x = w.spawn(NodeSpec::server(Ipv4Addr::new(10, 78, 0, 2), &[boot_addr])).expect("x");
+    w.run_for(rng.range(1, 30) * SEC);
+    let peers = 1 + rng.usize(3);
+    let mut ps = vec![];
+    for i in 0..peers {
+        let p = w.spawn(NodeSpec::server(Ipv4Addr::new(10, 78, 0, 10 + i as u8), &[x.addr])).expect("peer");
+        w.block_on(p.adht.bootstrapped(), 60 * SEC);
+        ps.push(p);
+    }
+    // ping rounds and at least one refresh answered by the peers alone
+    w.run_for(16 * MIN + rng.below(15 * MIN));
+    let knew = w.block_on(x.adht.to_bootstrap(), 5 * SEC).map(|t| t.len()).unwrap_or(0);
+    for p in ps.drain(..) {
+        w.crash(p);
+    }
+    let outage = 21 * MIN + rng.below(9 * MIN);
+    w.run_for(outage);
+    let drained = w.block_on(x.adht.to_bootstrap(), 5 * SEC).map(|t| t.is_empty()).unwrap_or(false);
+    let mut spec = NodeSpec::server(*boot_addr.ip(), &[]);
+    spec.port = Some(boot_addr.port());
+    let back = w.spawn(spec).expect("bootstrap node starts");
+    let t_back = w.now();
+    let mut recovered_after = None;
+    for k in 1..=8u64 {
+        w.run_to(t_back + k * 30 * SEC);
+        let tb = w.block_on(x.adht.to_bootstrap(), 5 * SEC).unwrap_or_default();
+        if !tb.is_empty() && recovered_after.is_none() {
+            recovered_after = Some(k * 30);
+        }
+    }
+    r.count("late_bootstrap_scenarios");
+    if drained && knew > 0 {
+        r.count("late_bootstrap/table_learned_from_joiners_then_drained");
+        r.nontrivial(mix(seed, outage));
+        if recovered_after.map(|s| s > 90).unwrap_or(true) {
+            r.violation("health/table-stays-empty/bootstrap-node-came-up-late", "the table stayed empty for more than 90 s although the (late) bootstrap node is reachable", case.clone(), json!({"peers": peers, "outage_min": outage / MIN, "recovered_after_s": recovered_after}));
+        }
+    } else {
+        r.count("late_bootstrap/premise-unmet");
     }
     drop(back);
     drop(x);
@@ -424,6 +503,10 @@ pub fn run(a: &Args) -> Report {
     if let Some(path) = &a.replay {
         let v: Value = serde_json::from_str(&std::fs::read_to_string(path).unwrap_or_default()).unwrap_or_default();
         let c = &v["case"];
+        if c["class"] == "late-bootstrap" {
+            late_bootstrap_scenario(&mut r, c["seed"].as_str().and_then(|s| s.parse().ok()).unwrap_or(1));
+            return r;
+        }
         if c["class"] == "blackout" {
             blackout_scenario(&mut r, c["seed"].as_str().and_then(|s| s.parse().ok()).unwrap_or(1));
             return r;
@@ -438,6 +521,8 @@ pub fn run(a: &Args) -> Report {
         let s = rng.u64();
         super::guarded(&mut r, json!({"class":"blackout","seed":s.to_string()}), |r| blackout_scenario(r, s));
         r.count("blackout_scenarios");
+        let s = rng.u64();
+        super::guarded(&mut r, json!({"class":"late-bootstrap","seed":s.to_string()}), |r| late_bootstrap_scenario(r, s));
     }
     // networks in which buckets fill up (capacity binds): private addresses or BEP42 ids from the start, so
     // that no re-key re-buckets a full table
